@@ -136,6 +136,20 @@ CLAIMED = {
 NOT_YET = {}
 
 
+EXTRA = {   # additions of the last session, appended to the level texts
+    "C08": " The same problem object is also re-oriented with the same objective object (min <-> max and back) between solves.",
+    "C11": " Operands also include Python lists / object arrays whose elements are scalar expressions (variables, Parameters), and vector power / function nodes used as operands (nested powers, arithmetic on either side).",
+    "C12": " One model takes its parameters from a VectorParameter (elements used through list operands, updated with VectorParameter.set); MatrixParameter is a plain array holder and outside.",
+    "C14": " Prefix models are solved with explicit, never-used-before solver arguments; the plain (non-callable) arguments handed to the library by the target's solve are also compared with its solve BEFORE the prefix, because state outside the LRU caches (mutated defaults) is shared with the cache_clear() reference.",
+    "C16": " The listing is repeated after the objective was replaced (an earlier objective mentioned two more variables) and after a sense flip.",
+    "C18": " The solve under test also runs on a deepcopy / copy of the problem.",
+    "C20": " One fault site is a per-call keyword that the library rejects by raising; the plain arguments of the next solve are compared with an untouched copy.",
+}
+for _k, _t in EXTRA.items():
+    _c = CLAIMED[_k]
+    CLAIMED[_k] = (_c[0], _c[1] + _t) + tuple(_c[2:])
+
+
 def main():
     props = [json.loads(l) for l in open(os.path.join(HERE, "properties.jsonl"))]
     checks = []
